@@ -113,6 +113,74 @@ theorem terminates (s s' : LState) (acts : List Act) (hc : s.groupCancelled = tr
     (hmax : ∀ a, a.isLib = true → step s' a = none) : ∃ r, s'.main = .returned r :=
   Proofs.Life.maximal_run_returns s s' acts hc hl hr hmax
 
+/-! ### keep-alive pings disabled (`Config.PingDelay <= 0`); a connection ends only for a reason -/
+
+/-- `pingLoop` starts with `if c.Config.PingDelay <= 0 { return nil }`. That early return (possible exactly
+    when pings are disabled and the loop has not returned yet) changes nothing but the loop's own status:
+    the group is not cancelled, no error is recorded, main and the other three loops do not move. -/
+theorem ping_off_does_not_end (s s' : LState) (hs : step s .pingDisabled = some s') :
+    s'.groupCancelled = s.groupCancelled ∧ s'.groupErr = s.groupErr ∧ s'.parentCancelled = s.parentCancelled ∧
+    s'.main = s.main ∧ s'.exec = s.exec ∧ s'.read = s.read ∧ s'.send = s.send :=
+  Proofs.Life.ping_off_does_not_end s s' hs
+
+theorem ping_off_enabled_iff (s : LState) :
+    (step s .pingDisabled).isSome = true ↔ (s.pingOff = true ∧ s.ping = .running) :=
+  Proofs.Life.pingDisabled_enabled_iff s
+
+/-- With pings disabled there is no ping timeout; and no step ever changes the configuration. -/
+theorem ping_off_no_timeout (s : LState) (ho : s.pingOff = true) : step s .pingTimeout = none :=
+  Proofs.Life.pingTimeout_needs_pings s ho
+
+theorem config_fixed (s s' : LState) (a : Act) (hs : step s a = some s') : s'.pingOff = s.pingOff ∧ s'.cap = s.cap :=
+  Proofs.Life.config_fixed s s' a hs
+
+/-- A connection ends only for a reason. In every reachable state (every interleaving, pings enabled or
+    disabled) in which the group context is cancelled, a terminating cause has occurred in the history:
+    Close() was called or a QUIT was written, the peer closed the connection, an ERROR was delivered to
+    handlers, a malformed line was read, the ping loop timed out, or a socket write failed.
+    (Non-vacuous: the runs below reach cancelled states, one for each single cause.) -/
+theorem no_spontaneous_end (s : LState) (h : Reach s) (hc : s.groupCancelled = true) :
+    s.closeRequested = true ∨ s.peerClosed = true ∨ firstError s.delivered ≠ none ∨
+    s.parseErrSeen = true ∨ s.pingTimedOut = true ∨ s.writeFailed = true :=
+  Proofs.Life.no_spontaneous_end h hc
+
+/-- If Connect has returned, one of the causes holds. -/
+theorem returned_has_cause (s : LState) (h : Reach s) (res : Option Err) (hr : s.main = .returned res) :
+    s.closeRequested = true ∨ s.peerClosed = true ∨ firstError s.delivered ≠ none ∨
+    s.parseErrSeen = true ∨ s.pingTimedOut = true ∨ s.writeFailed = true :=
+  Proofs.Life.returned_has_cause h (by rw [hr]; exact fun h => MainPc.noConfusion h)
+
+/-- Without a cause the connection is still up, in every reachable state: the group is not cancelled,
+    Connect is blocked in `group.Wait()`, execLoop / readLoop / sendLoop are running, the socket is open,
+    `conn` is set; pingLoop is running or — only with pings disabled — has returned nil. -/
+theorem up_without_cause (s : LState) (h : Reach s)
+    (h1 : s.closeRequested = false) (h2 : s.peerClosed = false) (h3 : firstError s.delivered = none)
+    (h4 : s.parseErrSeen = false) (h5 : s.pingTimedOut = false) (h6 : s.writeFailed = false) :
+    s.groupCancelled = false ∧ s.main = .waiting ∧ s.exec = .running ∧ s.read = .running ∧ s.send = .running ∧
+    (s.ping = .running ∨ (s.pingOff = true ∧ s.ping = .exited none)) ∧ s.sockClosed = false ∧ s.connNil = false :=
+  Proofs.Life.up_without_cause h h1 h2 h3 h4 h5 h6
+
+/-- In particular with pings disabled: whatever has happened (the ping loop has returned or not), as long
+    as none of the causes has occurred Connect has not returned — it is still in `group.Wait()`. -/
+theorem ping_off_still_up (s : LState) (h : Reach s) (_ho : s.pingOff = true)
+    (h1 : s.closeRequested = false) (h2 : s.peerClosed = false) (h3 : firstError s.delivered = none)
+    (h4 : s.parseErrSeen = false) (h5 : s.pingTimedOut = false) (h6 : s.writeFailed = false) :
+    s.main = .waiting ∧ s.groupCancelled = false :=
+  have u := Proofs.Life.up_without_cause h h1 h2 h3 h4 h5 h6
+  ⟨u.2.1, u.1⟩
+
+/-- The three cause flags are history variables: erasing them changes neither whether an action is
+    enabled nor its effect on the rest of the state; and each is written by a single action. -/
+theorem cause_flags_are_history (s : LState) (a : Act) :
+    (step (Proofs.Life.forgetCauses s) a).map Proofs.Life.forgetCauses = (step s a).map Proofs.Life.forgetCauses :=
+  Proofs.Life.cause_flags_are_history s a
+
+theorem cause_flags_writers (s s' : LState) (a : Act) (hs : step s a = some s') :
+    (a ≠ .readParseErr → s'.parseErrSeen = s.parseErrSeen) ∧
+    (a ≠ .pingTimeout → s'.pingTimedOut = s.pingTimedOut) ∧
+    (a ≠ .sendFail → s'.writeFailed = s.writeFailed) :=
+  Proofs.Life.cause_flags_writers s s' a hs
+
 /-! ### non-vacuity: concrete schedules -/
 def evN (n : Nat) : Ev := ⟨false, [], n⟩
 def evErr : Ev := ⟨true, [0x62, 0x79, 0x65], 9⟩   -- ERROR :bye
@@ -128,5 +196,50 @@ example : (run (begin [] []) [.userQuit, .sendTake, .peerSend evErr, .peerClose,
       .pingCancel, .mainWait, .mainClosedEv, .mainTeardown, .mainDisc, .mainFinish]).map
       (fun s => (s.main, s.emitted)) =
     some (.returned none, [.closed, .disconnected]) := by decide +kernel
+
+/-- `no_spontaneous_end` is not vacuous and no disjunct is redundant: for each cause a run that cancels
+    the group with that cause alone. The list is [groupCancelled, closeRequested, peerClosed,
+    an ERROR delivered, parseErrSeen, pingTimedOut, writeFailed]. -/
+def causeVec (s : LState) : List Bool :=
+  [s.groupCancelled, s.closeRequested, s.peerClosed, (firstError s.delivered).isSome, s.parseErrSeen, s.pingTimedOut,
+    s.writeFailed]
+
+/-- Pings disabled: the ping loop returns at once; the connection stays up and keeps working
+    (nothing cancelled, Connect still waiting, no cause recorded) … -/
+example : (run (begin [] [] 25 true) [.pingDisabled, .peerSend (evN 0), .readTake, .execTake]).map
+      (fun s => ((s.main, s.groupCancelled, s.delivered.length), [s.ping, s.exec, s.read, s.send], causeVec s)) =
+    some ((.waiting, false, 1), [.exited none, .running, .running, .running],
+      [false, false, false, false, false, false, false]) := by decide +kernel
+
+/-- … until Close(): then it winds down to nil with CLOSED, DISCONNECTED. -/
+example : (run (begin [] [] 25 true) [.pingDisabled, .peerSend (evN 0), .readTake, .execTake,
+      .userClose, .readCancel, .execFlush, .sendCancel, .mainWait, .mainClosedEv, .mainTeardown, .mainDisc, .mainFinish]).map
+      (fun s => (s.main, s.emitted, s.closeRequested)) =
+    some (.returned none, [.closed, .disconnected], true) := by decide +kernel
+
+/-- With pings disabled neither the ticker path nor the `<-ctx.Done()` arm exists; with pings enabled
+    the early return does not. -/
+example : run (begin [] [] 25 true) [.pingTimeout] = none ∧ run (begin [] [] 25 true) [.userClose, .pingCancel] = none ∧
+    run (begin [] []) [.pingDisabled] = none := by decide +kernel
+
+/-- The ping loop may also get to its early return only after the group was cancelled. -/
+example : (run (begin [] [] 25 true) [.userClose, .readCancel, .execFlush, .sendCancel, .pingDisabled, .mainWait,
+      .mainClosedEv, .mainTeardown, .mainDisc, .mainFinish]).map (fun s => (s.main, s.emitted)) =
+    some (.returned none, [.closed, .disconnected]) := by decide +kernel
+
+/-- one run per cause -/
+example : (run (begin [] []) [.userClose]).map causeVec = some [true, true, false, false, false, false, false] := by
+  decide +kernel
+example : (run (begin [] []) [.peerClose, .readEOF]).map causeVec = some [true, false, true, false, false, false, false] := by
+  decide +kernel
+example : (run (begin [] []) [.peerSend evErr, .readTake, .execTake]).map causeVec =
+    some [true, false, false, true, false, false, false] := by decide +kernel
+example : (run (begin [] []) [.peerSend (evN 0), .readParseErr]).map causeVec =
+    some [true, false, false, false, true, false, false] := by decide +kernel
+example : (run (begin [] []) [.pingTimeout]).map causeVec = some [true, false, false, false, false, true, false] := by
+  decide +kernel
+/-- (a write can only fail after the peer closed: the peer's close is a cause as well here) -/
+example : (run (begin [] []) [.userSend 1, .peerClose, .sendFail]).map causeVec =
+    some [true, false, true, false, false, false, true] := by decide +kernel
 
 end Girc.Props.C07
